@@ -44,6 +44,7 @@ func reset_BANG(atomRef, value MalType) (MalType, error) {
 		return nil, errors.New("reset! called with non-atom")
 	}
 	atm := atomRef.(*Atom)
+	verifHook("atom.reset.mid", atm)
 	atm.Mutex.Lock()
 	defer atm.Mutex.Unlock()
 	atm.Set(value)
@@ -68,6 +69,7 @@ func swap_BANG(ctx context.Context, a ...MalType) (MalType, error) {
 		if e != nil {
 			return nil, e
 		}
+		verifHook("atom.swap.mid", atm)
 		atm.Mutex.Lock()
 		if atm.version == version {
 			atm.Set(res)
@@ -106,6 +108,7 @@ func (a *Atom) Set(val MalType) MalType {
 }
 
 func (a *Atom) Deref(_ context.Context) (MalType, error) {
+	verifHook("atom.deref.mid", a)
 	a.Mutex.RLock()
 	defer a.Mutex.RUnlock()
 	return a.Val, nil
@@ -115,6 +118,7 @@ func (a *Atom) LispPrint(pr_str func(MalType, bool) string) string {
 	a.Mutex.RLock()
 	val := a.Val
 	a.Mutex.RUnlock()
+	verifHook("atom.print.mid", a)
 	return "«atom " + pr_str(val, true) + "»"
 }
 
@@ -145,12 +149,15 @@ func NewFuture(ctx context.Context, fn MalFunc) *Future {
 		Fn:         fn,
 	}
 	go func() {
+		verifHook("future.body.start", f)
 		res, err := Apply(ctx, fn, nil)
+		verifHook("future.body.end", f)
 		// mark the future done before the outcome can be observed: once a deref has returned,
 		// future-done? is true and a late future-cancel is refused
 		f.mu.Lock()
 		f.Done = true
 		f.mu.Unlock()
+		verifHook("future.body.mid", f)
 		if err != nil {
 			f.ErrChan <- err
 			return
@@ -162,6 +169,7 @@ func NewFuture(ctx context.Context, fn MalFunc) *Future {
 }
 
 func (f *Future) Cancel() bool {
+	verifHook("future.cancel.mid", f)
 	f.mu.Lock()
 	defer f.mu.Unlock()
 	if !f.Done {
@@ -191,9 +199,11 @@ func (f *Future) Deref(ctx context.Context) (MalType, error) {
 	case <-ctx.Done():
 		return nil, errors.New("timeout while dereferencing future")
 	case err := <-f.ErrChan:
+		verifHook("future.deref.mid", f)
 		f.ErrChan <- err
 		return nil, err
 	case res := <-f.ValChan:
+		verifHook("future.deref.mid", f)
 		f.ValChan <- res
 		return res, nil
 	}
